@@ -883,14 +883,24 @@ int main(int argc, char **argv) {
     /* identical addresses for identical (binary, plan): ASLR off, then re-exec once */
     if (!getenv("JSIM_NO_REEXEC")) {
         int pers = personality(0xffffffff);
-        if (pers != -1 && !(pers & ADDR_NO_RANDOMIZE)) {
-            personality(pers | ADDR_NO_RANDOMIZE);
-            setenv("JSIM_NO_REEXEC", "1", 1);
-            execv("/proc/self/exe", argv);
-        }
+        if (pers != -1) personality(pers | ADDR_NO_RANDOMIZE);
+        setenv("JSIM_NO_REEXEC", "1", 1);
+        /* no per-thread malloc caches: they are flushed on a thread's exit path, which runs outside the
+         * scheduler's control and would make later addresses depend on real timing */
+        setenv("GLIBC_TUNABLES", "glibc.malloc.tcache_count=0", 1);
+        /* a fixed, minimal environment: heap layout must not depend on the caller's variables */
+        char *envp[] = {"JSIM_NO_REEXEC=1", "GLIBC_TUNABLES=glibc.malloc.tcache_count=0", "TZ=UTC", "LC_ALL=C",
+                        "PATH=/usr/bin:/bin", NULL};
+        execve("/proc/self/exe", argv, envp);
     }
     setenv("TZ", "UTC", 1);
     setenv("LC_ALL", "C", 1);
+    /* one malloc arena: with per-thread arenas the addresses handed to a thread depend on which
+     * arena happens to be uncontended, i.e. on the real timing of other threads' exit paths */
+    mallopt(M_ARENA_MAX, 1);
+    /* ... and no mmap-backed chunks: their addresses depend on when exiting threads unmap their stacks */
+    mallopt(M_MMAP_THRESHOLD, 32 * 1024 * 1024);
+    mallopt(M_TRIM_THRESHOLD, 1 << 30);
     if (argc >= 2 && !strcmp(argv[1], "--server")) {
         prctl(PR_SET_PDEATHSIG, SIGKILL);
         server();
